@@ -16,6 +16,20 @@ from lib import Infra
 MODULE = "ProbLogProofs.Properties.C09"
 THEOREMS = [
     "ProbLogProofs.C09.C09_clark_node_iff",
+    "ProbLogProofs.C09.C09_keyVal_litVal",
+    "ProbLogProofs.C09.C09_clark_split",
+    "ProbLogProofs.C09.C09_clark_nodes_ok",
+    "ProbLogProofs.C09.C09_clark_unique",
+    "ProbLogProofs.C09.C09_clark_unique_cnf",
+    "ProbLogProofs.C09.C09_clark_exists",
+    "ProbLogProofs.C09.C09_clark_unique_model",
+    "ProbLogProofs.C09.C09_clark_count",
+    "ProbLogProofs.C09.C09_clark_constraints",
+    "ProbLogProofs.C09.C09_clark_constraints_exactly_one",
+    "ProbLogProofs.C09.C09_clark_constraints_all",
+    "ProbLogProofs.C09.C09_clark_models",
+    "ProbLogProofs.C09.C09_clark_node_iff_needs_no_true_child",
+    "ProbLogProofs.C09.C09_clark_carry",
 ]
 
 MANIFEST = {
